@@ -22,7 +22,8 @@ RULE = ('perm: random profile, outcome under 3 random permutations of the dictio
         'thorough tier: exhaustive-small-simple = EVERY simple-vote profile over <= 3 candidates with totals 0..3, every n, every permutation and the '
         'order-reversing renaming, for all simple-vote evaluators. non-trivial = the outcome contains a tie or a refusal, or the profile has > 3 candidates; distinct by case hash')
 PARTIAL = ['order / renaming / hash-seed independence of the evaluators without a Gallina model here '
-           '(STAR, allocated score, Bucklin family, Tideman / Benham ...) are decided per explored case; '
+           '(STAR, Bucklin family, Tideman / Benham ...) are decided per explored case; allocated score: no error outcome under any iteration order of the tied sets '
+           '(C10_allocated_score_crash_free), the spending order of the quotas of jointly seated level leaders is refuted (C10_allocated_score_tie_order_refuted, known finding C10-allocated-score), the rest per case; '
            'proved: order independence of get_n_best, the additive converters, highest averages, the quota family, the STV count and the Condorcet family '
            '(Schulze, the Smith set and the Schwartz set for non-negative counts, ranked pairs for pairwise distinct sort keys; ranked pairs with equal strengths refuted; the prefix routine SchwartzSet ran before the repair fixes/C06-schwartz-set refuted - fixed finding C10-schwartz-order); '
            'renaming equivariance (exact equality, f injective) of the Condorcet family, QuotaDistributor / LargestRemainder / QuotaSelector, the STV count, SPAV, the score '
@@ -357,9 +358,56 @@ def known_class(c, io, mo):
     """open findings of C10.  (C10-schwartz-order is repaired - fixes/C06-schwartz-set, status fixed: a SchwartzSet outcome
     that depends on the order / the names is a VIOLATION again; witnesses in corpus/C10/schwartz-*.json)"""
     crashed = lambda x: '"err"' in str(x) or not (str(x).startswith("(('") or str(x).startswith('{'))     # noqa
-    if c.get('evaluator') == 'allocated_score' and (crashed(io) or crashed(mo)):
+    # wave 6: the exhausted-ballots crash is repaired (fixes/C12-allocated-score-exhausted, C10_allocated_score_crash_free): a
+    # crash under one presentation is a violation again.  What stays open: a round that seats several level leaders spends
+    # their quotas one after the other in set-iteration order (C10_allocated_score_tie_order_refuted)
+    if c.get('evaluator') == 'allocated_score' and not crashed(io) and not crashed(mo) and alloc_tie_round(c.get('profile', []), c.get('n', 1)):
         return 'C10-allocated-score'
     return None
+
+
+def alloc_tie_round(profile, n):
+    """allocated score (Hare quota, as registered): does the election reach a round whose greatest weighted score sum is shared
+    by 2 <= t <= open seats candidates?  Up to the first such round the count does not depend on any iteration order, so this
+    is a property of the profile (independent Fraction re-implementation of the repaired count)."""
+    from fractions import Fraction
+    cur = [[dict((cc, common.q(s)) for cc, s in b), common.q(w)] for b, w in profile]
+    total = sum(w for _, w in cur)
+    if n <= 0 or total <= 0:
+        return False
+    quota = Fraction(total) / n
+    every = sorted({cc for b, _ in cur for cc in b})
+    elected = []
+    while len(elected) < n:
+        sums = {}
+        for b, w in cur:
+            for cc, sc in b.items():
+                sums[cc] = sums.get(cc, 0) + sc * w
+        if not sums:
+            sums = {cc: 0 for cc in every if cc not in elected}
+            if not sums:
+                return False
+        top = max(sums.values())
+        best = [cc for cc, x in sums.items() if x == top]
+        if len(best) > 1:
+            return len(best) <= n - len(elected)
+        win = best[0]
+        elected.append(win)
+        rem = quota
+        for level in sorted({b[win] for b, w in cur if win in b}, reverse=True):
+            grp = [x for x in cur if win in x[0] and x[0][win] == level]
+            size = sum(x[1] for x in grp)
+            if size > rem:
+                for x in grp:
+                    x[1] *= Fraction(size - rem) / size
+                break
+            for x in grp:
+                x[1] = Fraction(0)
+            rem -= size
+            if rem == 0:
+                break
+        cur = [[{cc: sc for cc, sc in b.items() if cc != win}, w] for b, w in cur if w > 0]
+    return False
 
 
 def corpus():
